@@ -370,6 +370,37 @@ def cookie_sessions(ctx: Ctx, only=None):
     ctx.coverage["oracle"]["coding_cookie_sessions"] = len(kinds)
 
 
+def corr_encode(ctx: Ctx):
+    """Model/StrLit.v encode_text vs str.encode(encoding, "backslashreplace") on the literals value_to_token writes (what SourceFile.rewrite does for files with a
+    coding cookie since F-97), and the escaped literal read back"""
+    from ..core import g_N
+    rng = ctx.rng
+    pool = ["a", " ", "'", '"', "\\", "\xe9", "\xff", "\u0100", "\u20ac", "\u4e2d", "\U0001f40d", "\x7f", "\x80", "\xa0", "\xad", "\u2028", "\ud800", "\t", "x=1"]
+    cases, kept = [], []
+    for _ in range(400 if not ctx.thorough else 5000):
+        s = "".join(rng.choice(pool) for _ in range(rng.randint(0, 8)))
+        lit = literal_of(s)
+        for codec, limit in (("latin-1", 256), ("ascii", 128)):
+            enc = lit.encode(codec, "backslashreplace").decode(codec)
+            ctx.count(("encode", s, codec), any(ord(c) >= limit for c in lit))
+            try:
+                back = ast.literal_eval(enc)
+            except Exception as e:  # noqa
+                back = e
+            if back != s:
+                ctx.report(f"the literal {lit!r} of {s!r}, encoded for a {codec} file with backslashreplace ({enc!r}), evaluates to {back!r}", {"kind": "literal", "s": [ord(c) for c in s]})
+                continue
+            cases.append(g_pair(g_str(s), g_str(lit), g_str(enc), g_N(limit)))
+            kept.append((s, lit, enc, codec))
+    bad = coq_eval_shards(ctx, "encode", "Model.StrLit Corr.StrLitCorr", "StrLitCorr.ecase", cases, "StrLitCorr.emismatches", chunk=400)
+    ctx.coverage["traces_validated_against_impl"] += len(cases)
+    ctx.coverage["correspondence"]["backslashreplace"] = {"cases": len(cases), "mismatches": len(bad)}
+    for j in bad[:5]:
+        s, lit, enc, codec = kept[j]
+        ctx.report(f"Model/StrLit.v encode_text and str.encode({codec!r}, 'backslashreplace') differ on the literal {lit!r}: Python gives {enc!r}", {"kind": "literal", "s": [ord(c) for c in s]},
+                   no_input=True, kind="correspondence")
+
+
 def run(ctx: Ctx):
     ctx.coverage["rule"] = (
         "A: every string over a 17-symbol adversarial alphabet (quotes, backslash, LF, CR, TAB, NUL, DEL, soft hyphen, U+2028, astral, lone surrogate, blanks) "
@@ -382,6 +413,7 @@ def run(ctx: Ctx):
     ctx.assumptions += ["decoder model: raw CR / NUL are never emitted (checked: chr(13), chr(0) not printable)", "black and the format-command are exercised, not modelled"]
     proof_step(ctx)
     corr_literals(ctx)
+    corr_encode(ctx)
     e2e(ctx)
     locale_sessions(ctx)
     cookie_sessions(ctx)
